@@ -3,6 +3,7 @@ package spec
 import (
 	"fmt"
 	"io"
+	"sort"
 
 	"github.com/moorara/algo/errors"
 	"github.com/moorara/algo/grammar"
@@ -363,7 +364,7 @@ func Parse(filename string, src io.Reader) (*Spec, error) {
 
 			grammar := grammar.NewCFG(table.Terminals(), table.NonTerminals(), table.Productions(), "start")
 			if err := grammar.Verify(); err != nil {
-				errs = errors.Append(errs, err)
+				errs = errors.Append(errs, sortedErrors(err)...)
 			}
 
 			precedences := table.Precedences()
@@ -391,4 +392,19 @@ func Parse(filename string, src io.Reader) (*Spec, error) {
 	}
 
 	return res.Val.(*Spec), nil
+}
+
+// sortedErrors returns the individual errors of err ordered by their messages.
+// The grammar verifies its symbols in the order of its hash tables, which differs from run to run.
+func sortedErrors(err error) []error {
+	errs := []error{err}
+	if me, ok := err.(interface{ Unwrap() []error }); ok {
+		errs = append([]error{}, me.Unwrap()...)
+	}
+
+	sort.SliceStable(errs, func(i, j int) bool {
+		return errs[i].Error() < errs[j].Error()
+	})
+
+	return errs
 }
